@@ -253,3 +253,9 @@ func genC03Lag(rt *rapid.T) Case {
 func TestC03VotesLagging(t *testing.T) {
 	common.Check(t, "C03", "TestC03VotesLagging", 4000, 80000, genC03Lag, c03Prop)
 }
+
+// TestC03VotesCatchUp: the catch-up shape (a lagging replica alone with a Byzantine leader that hands out only the newest blocks, then the
+// network heals; see genC06CatchUp) under this property's oracle.
+func TestC03VotesCatchUp(t *testing.T) {
+	common.Check(t, "C03", "TestC03VotesCatchUp", 1200, 30000, genC06CatchUp, c03Prop)
+}
